@@ -127,19 +127,36 @@ def twin_oracle(ctx):
         ctor, args = mk(kind)
         used, fresh = ctor(), None
         Lv = used.frame_length
-        hist_desc = []
+        hist_desc, refused = [], None
         for u in range(rng.randint(1, 4)):
             N = rng.choice([0, 1, used.frame_shift // 2, Lv // 2, Lv // 2 + 1, Lv, rng.randint(0, 4 * Lv), rng.randint(0, 40)])
             # earlier utterances may have another floating dtype than the next one (a dtype must not stick to the instance)
             hdt = rng.choice(["float64", "float64", "float32", "float16"])
             sig = nprng.randn(N).astype(hdt)
             sc = rand_script(N)
-            drive(used, sc, sig)
+            ho = drive(used, sc, sig)
             ctx.count("twin:history_dtype=" + hdt)
             hist_desc.append(dict(N=N, dtype=hdt, script=[list(o) for o in sc]))
-        if used.started:
-            used.finalize()
-            hist_desc.append("finalize")
+            # an utterance of the history is itself a "next utterance" of what came before it: a fresh
+            # instance accepts every compute_chunk / finalize of these scripts (one floating dtype per
+            # utterance) and refuses only compute_full / frame_by_frame_calculation mid-utterance, and every
+            # script ends with finalize, after which `started` is false
+            wrong = [i for i, (o, r) in enumerate(zip(sc, ho))
+                     if r[0] == "ValueError" and (o[0] in ("chunk", "finalize") or len(sc) == 1)]
+            if wrong or used.started:
+                i = wrong[0] if wrong else len(sc) - 1
+                refused = dict(kind=kind, args={k: str(v) for k, v in args.items()}, history=hist_desc[:-1],
+                               next=hist_desc[-1], first_difference_at_op=i,
+                               used=("%s raised ValueError; started=%s afterwards" % (sc[i][0], used.started)) if wrong
+                               else "started is still True after the last finalize",
+                               fresh="a fresh instance accepts this call and is idle after finalize")
+                break
+        if refused is not None:
+            # reported with the history that led to it; this instance is in no state to go on
+            ctx.count("twin:" + kind)
+            ctx.case(dict(kind=kind, args=refused["args"], history=refused["history"], next=refused["next"]), nontrivial=True)
+            bad.append(refused)
+            continue
         N = rng.choice([Lv // 2 + 1, Lv, Lv + 3, rng.randint(0, 5 * Lv)])
         ndt = rng.choice(["float64", "float64", "float64", "float32"])
         sig = nprng.randn(N).astype(ndt)
